@@ -504,6 +504,7 @@ class StatesManager:
         self.grid = grid
         self.pairing = pairing
         self._last_projected_index = -1
+        self._index_of_last_logged_state = -1
 
     def is_outside(self, state_increment):
         state = self.origin_coordinates + state_increment
@@ -531,14 +532,17 @@ class StatesManager:
         is_outside = self.is_outside
         project = self.pairing.project
         if x == max_logged:
-            # reset the self._last_projected_index
-            self._last_projected_index = -1
+            # a new scan beyond the logged states resumes after the pairing index of the last logged state (which is larger
+            # than its rank when indices falling outside the grid were skipped)
+            self._last_projected_index = self._index_of_last_logged_state
 
         xx = max(x, self._last_projected_index + 1)
 
         while xx <= self.max_state_index:
             if not is_outside(state_increment := project(xx)):
                 self._last_projected_index = xx
+                if x == max_logged - 1:
+                    self._index_of_last_logged_state = xx
                 return state_increment, False
             xx = xx + 1
 
